@@ -71,6 +71,31 @@ fn from_bin(kind: Kind, b: &[u8]) -> Result<Val, String> {
     .map_err(|e| e.to_string())
 }
 
+/// other configurations of the binary format: variable-length integers (where signed and
+/// unsigned, and every width, are encoded differently, so the writer and the reader must name
+/// the same integer type) and big-endian fixed width
+fn bin_roundtrip_alt(v: &LibVal, route: u8) -> Result<Val, String> {
+    use bincode::Options;
+    macro_rules! rt {
+        ($x:expr, $t:ty, $wrap:path) => {{
+            let r: Result<$t, bincode::Error> = match route {
+                0 => bincode::DefaultOptions::new().serialize($x).and_then(|b| bincode::DefaultOptions::new().deserialize::<$t>(&b)),
+                _ => bincode::DefaultOptions::new().with_big_endian().with_fixint_encoding().serialize($x).and_then(|b| bincode::DefaultOptions::new().with_big_endian().with_fixint_encoding().deserialize::<$t>(&b)),
+            };
+            r.map(|x| $wrap(x).to_val())
+        }};
+    }
+    match v {
+        LibVal::Date(x) => rt!(x, Date, LibVal::Date),
+        LibVal::Time(x) => rt!(x, Time, LibVal::Time),
+        LibVal::Ts(x) => rt!(x, Timestamp, LibVal::Ts),
+        LibVal::Ora(x) => rt!(x, OracleDate, LibVal::Ora),
+        LibVal::YM(x) => rt!(x, IntervalYM, LibVal::YM),
+        LibVal::DT(x) => rt!(x, IntervalDT, LibVal::DT),
+    }
+    .map_err(|e| e.to_string())
+}
+
 fn raw_bytes(kind: Kind, raw: i128) -> Vec<u8> {
     match kind {
         Kind::Date | Kind::YM => (raw as i32).to_le_bytes().to_vec(),
@@ -98,6 +123,12 @@ pub fn check_roundtrip(kind: Kind, raw: i128) -> Result<(), String> {
         match from_bin(kind, &bin) {
             Ok(b) if b == v => {}
             other => return Err(format!("binary form deserializes to {other:?}, expected {raw}")),
+        }
+        for route in 0..2u8 {
+            match bin_roundtrip_alt(&lv, route) {
+                Ok(b) if b == v => {}
+                other => return Err(format!("binary round trip through bincode with {} gives {other:?}, expected {raw}", ["variable-length integers", "big-endian fixed-width integers"][route as usize])),
+            }
         }
         Ok(())
     })
@@ -772,8 +803,8 @@ pub fn run(ctx: &Ctx) -> (Stats, Report) {
     st.section("concurrent_histories", &mut mark);
 
     let rep = Report {
-        rule: "Round trips through serde_json and bincode: all dates, every second of the day x {0,1,999999} us, boundary+seeded pools of all six types; the JSON text must equal the reference rendering of the fixed layout in quotes and the binary form the little-endian raw count. Decoding: raw integers at every range limit +-0..3 and +-1e6, the i32/i64 extremes and seeded integers (uniform over the integer width, around the range, inside the range) as bincode payloads of every type (non-whole-second counts for the Oracle date included); JSON payloads made by 1..3 random edits of valid strings plus non-string JSON, every single-character substitution of canonical texts (every position x 16 characters incl. the ISO 'T' / 'Z' letters) x four paddings, text payloads written field by field at the limits (limit day count +-1 x every boundary / binary-boundary time of day x sign, limit years x months, first / last supported dates and their outside neighbours x times, the first / last valid text of every type with 19 extension suffixes such as shorter / longer fractions and zone designators), and long strings (valid or empty head + filler of every length 0..=600, 5000 in thorough, + a 2-, 3- or 4-byte character, so that a multi-byte character straddles every byte offset); integers handed to Deserialize in every width (i8..i128, u8..u128) by serde's de::value deserializers - range limits, small values and their images shifted by multiples of 2^8..2^65, extremes, seeded values: Err, or exactly the value whose raw count is that integer (never a truncated image). Concurrent histories: 16 threads, each walking its own three days (staying on a day 3 times out of 4) and round-tripping every value twice, so that any state the library shares between calls is hit from several threads (schedule-dependent: sound on any tree, sensitivity probabilistic). Oracle: round trip returns the same value; any other payload yields Err or a value satisfying the range predicate (whole seconds for the Oracle date). Non-trivial = every round-tripped value; out-of-range binary payloads; every perturbed JSON payload (distinct by content).".into(),
-        assumptions: vec!["bincode 1.3 default configuration (little-endian fixed-width integers) and serde_json as the two data formats".into()],
+        rule: "Round trips through serde_json and bincode: all dates, every second of the day x {0,1,999999} us, boundary+seeded pools of all six types; the JSON text must equal the reference rendering of the fixed layout in quotes and the binary form the little-endian raw count; the binary round trip is repeated with variable-length integers (signedness and width of writer and reader must agree) and big-endian fixed width. Decoding: raw integers at every range limit +-0..3 and +-1e6, the i32/i64 extremes and seeded integers (uniform over the integer width, around the range, inside the range) as bincode payloads of every type (non-whole-second counts for the Oracle date included); JSON payloads made by 1..3 random edits of valid strings plus non-string JSON, every single-character substitution of canonical texts (every position x 16 characters incl. the ISO 'T' / 'Z' letters) x four paddings, text payloads written field by field at the limits (limit day count +-1 x every boundary / binary-boundary time of day x sign, limit years x months, first / last supported dates and their outside neighbours x times, the first / last valid text of every type with 19 extension suffixes such as shorter / longer fractions and zone designators), and long strings (valid or empty head + filler of every length 0..=600, 5000 in thorough, + a 2-, 3- or 4-byte character, so that a multi-byte character straddles every byte offset); integers handed to Deserialize in every width (i8..i128, u8..u128) by serde's de::value deserializers - range limits, small values and their images shifted by multiples of 2^8..2^65, extremes, seeded values: Err, or exactly the value whose raw count is that integer (never a truncated image). Concurrent histories: 16 threads, each walking its own three days (staying on a day 3 times out of 4) and round-tripping every value twice, so that any state the library shares between calls is hit from several threads (schedule-dependent: sound on any tree, sensitivity probabilistic). Oracle: round trip returns the same value; any other payload yields Err or a value satisfying the range predicate (whole seconds for the Oracle date). Non-trivial = every round-tripped value; out-of-range binary payloads; every perturbed JSON payload (distinct by content).".into(),
+        assumptions: vec!["bincode 1.3 (little-endian fixed-width integers for the byte-exact comparison; variable-length and big-endian configurations for round trips only) and serde_json as the data formats".into()],
         exhaustive: false,
         extra: Default::default(),
     };
